@@ -3,6 +3,7 @@ package rules
 import (
 	"fmt"
 	"go/types"
+	"strings"
 
 	"golang.org/x/tools/go/ssa"
 	"verif/checker/internal/core"
@@ -179,6 +180,10 @@ func runC02(c *core.Ctx) {
 				"a synchronous write can return success without flushing the transport", p.PathString(path, tgt)...)
 		})
 	}
+
+	// ---- R6 (shared with C17-R1): Transport.Flush of every shipped wrapper really drains its buffered writer
+	c.Rule("R6", "every wrapper variant that owns a bufio.Writer flushes that writer in Flush and returns its error (nothing stays parked in a transport buffer)", 2)
+	importObligations(c, runC17, "R6", func(o *core.Obligation) bool { return strings.Contains(o.Key, "/Flush/") })
 
 	// ---- R5 census
 	for _, fn := range p.Funcs {
